@@ -276,6 +276,17 @@ Theorem C09_sqlite_lowered_frequency_refuted :
 Proof. exact sqlite_lowered_frequency_shadowed. Qed.
 Print Assumptions C09_sqlite_lowered_frequency_refuted.
 
+(* FALSE of the TrieBuf model as it is (not fixed; KNOWN_FINDINGS C09-prefix-lookup-returns-removed-phrase): "a removed
+   phrase stays absent" fails for PREFIX lookups of a file-backed TrieBuf - the theorems above are stated for Standard
+   lookups.  File holds (ㄘㄜˋ, 測); remove it; the exact lookup returns nothing, the prefix lookup of ㄘ still 測 *)
+Theorem C09_prefix_lookup_returns_removed_phrase_refuted :
+  let tb := final fixed (tb_open (trie_build [(K1, mkPhrase ce 5 None)])) [ORemove K1 ce] in
+  s_lookup K1 (spec_run (spec_of_trie (trie_build [(K1, mkPhrase ce 5 None)])) [ORemove K1 ce]) = [] /\
+  tb_lookup fixed tb K1 USIZE_MAX Standard = [] /\
+  tb_lookup fixed tb Kc USIZE_MAX FuzzyPartialPrefix = [mkPhrase ce 5 None].
+Proof. exact prefix_lookup_returns_removed_phrase. Qed.
+Print Assumptions C09_prefix_lookup_returns_removed_phrase_refuted.
+
 (* ------------------------------------------------------------------ non-vacuity *)
 
 (* the witnesses of the pinned refutations, on the code that exists now *)
